@@ -321,20 +321,37 @@ func describeExpr(f *FuncInfo, e ast.Expr, depth int) string {
 			}
 			defs := defsOfVarWithIndex(f, o)
 			if describeUsePos.IsValid() && len(defs) > 1 {
-				// position-sensitive mode: the last definition textually before the use (straight-line reaching definition)
-				var last *varDef
+				// position-sensitive mode: walk the definitions textually before the use, latest first, up to and
+				// including the first one whose statement list encloses the use (it kills the earlier ones); definitions
+				// in blocks that do not enclose the use (if/else arms, loop bodies) are alternatives.
+				var before []varDef
 				for i := range defs {
-					if defs[i].pos <= describeUsePos && (last == nil || defs[i].pos > last.pos) {
-						last = &defs[i]
+					if defs[i].pos <= describeUsePos {
+						before = append(before, defs[i])
 					}
 				}
-				if last != nil {
+				sort.Slice(before, func(i, j int) bool { return before[i].pos > before[j].pos })
+				var cands []varDef
+				for _, d := range before {
+					cands = append(cands, d)
+					blk := f.scopeBlockOf(d.stmt)
+					if _, isRange := d.stmt.(*ast.RangeStmt); isRange {
+						blk = d.stmt
+					}
+					if blk == nil || encloses(blk, describeUsePos) {
+						break
+					}
+				}
+				if len(cands) == 1 {
 					// uses inside the defining statement resolve to definitions before it
 					old := describeUsePos
-					describeUsePos = last.start
-					r := last.describe(f, depth+1)
+					describeUsePos = cands[0].start
+					r := cands[0].describe(f, depth+1)
 					describeUsePos = old
 					return r
+				}
+				if len(cands) > 1 {
+					defs = cands
 				}
 			}
 			if len(defs) == 1 {
@@ -447,6 +464,7 @@ func recvOf(f *FuncInfo) *types.Var {
 
 type varDef struct {
 	start token.Pos // start of the defining statement
+	stmt  ast.Node  // the defining statement
 	pos   token.Pos // end of the defining statement (range: position of the range statement)
 	rhs   ast.Expr // nil for range / unknown
 	index int      // index into a tuple-valued rhs, -1 when rhs is the value itself
@@ -483,13 +501,13 @@ func defsOfVarWithIndex(f *FuncInfo, v *types.Var) []varDef {
 					continue
 				}
 				if s.Tok != token.ASSIGN && s.Tok != token.DEFINE {
-					out = append(out, varDef{start: s.Pos(), pos: s.End(), index: -1}) // op-assign
+					out = append(out, varDef{stmt: s, start: s.Pos(), pos: s.End(), index: -1}) // op-assign
 					continue
 				}
 				if len(s.Lhs) == len(s.Rhs) {
-					out = append(out, varDef{start: s.Pos(), pos: s.End(), rhs: s.Rhs[i], index: -1})
+					out = append(out, varDef{stmt: s, start: s.Pos(), pos: s.End(), rhs: s.Rhs[i], index: -1})
 				} else if len(s.Rhs) == 1 {
-					out = append(out, varDef{start: s.Pos(), pos: s.End(), rhs: s.Rhs[0], index: i})
+					out = append(out, varDef{stmt: s, start: s.Pos(), pos: s.End(), rhs: s.Rhs[0], index: i})
 				}
 			}
 		case *ast.ValueSpec:
@@ -498,22 +516,22 @@ func defsOfVarWithIndex(f *FuncInfo, v *types.Var) []varDef {
 					continue
 				}
 				if len(s.Values) == len(s.Names) {
-					out = append(out, varDef{start: s.Pos(), pos: s.End(), rhs: s.Values[i], index: -1})
+					out = append(out, varDef{stmt: s, start: s.Pos(), pos: s.End(), rhs: s.Values[i], index: -1})
 				} else if len(s.Values) == 1 {
-					out = append(out, varDef{start: s.Pos(), pos: s.End(), rhs: s.Values[0], index: i})
+					out = append(out, varDef{stmt: s, start: s.Pos(), pos: s.End(), rhs: s.Values[0], index: i})
 				}
 				// no initial value: zero value, not a def of interest
 			}
 		case *ast.RangeStmt:
 			if id, ok := s.Key.(*ast.Ident); ok && (info.Defs[id] == v || info.Uses[id] == v) {
-				out = append(out, varDef{start: s.Pos(), pos: s.Pos()+1, rng: s.X, isKey: true})
+				out = append(out, varDef{stmt: s, start: s.Pos(), pos: s.Pos()+1, rng: s.X, isKey: true})
 			}
 			if id, ok := s.Value.(*ast.Ident); ok && (info.Defs[id] == v || info.Uses[id] == v) {
-				out = append(out, varDef{start: s.Pos(), pos: s.Pos()+1, rng: s.X})
+				out = append(out, varDef{stmt: s, start: s.Pos(), pos: s.Pos()+1, rng: s.X})
 			}
 		case *ast.IncDecStmt:
 			if id, ok := ast.Unparen(s.X).(*ast.Ident); ok && info.Uses[id] == v {
-				out = append(out, varDef{start: s.Pos(), pos: s.End(), index: -1})
+				out = append(out, varDef{stmt: s, start: s.Pos(), pos: s.End(), index: -1})
 			}
 		}
 		return true
